@@ -609,7 +609,7 @@ class NumericColumn(FixedBytesColumn):
             self._pack = struct.Struct("!" + typecode).pack
             self._default = default
             self._defaultbytes = self._pack(default)
-            self._fixedlen = struct.calcsize(typecode)
+            self._fixedlen = struct.calcsize("!" + typecode)
             self._count = 0
 
         def __repr__(self):
@@ -635,7 +635,7 @@ class NumericColumn(FixedBytesColumn):
             self._typecode = typecode
             self._unpack = struct.Struct("!" + typecode).unpack
             self._defaultbytes = struct.pack("!" + typecode, default)
-            self._fixedlen = struct.calcsize(typecode)
+            self._fixedlen = struct.calcsize("!" + typecode)
             self._count = length // self._fixedlen
 
         def __repr__(self):
